@@ -66,10 +66,59 @@ def instances(tier, seed):
     return out
 
 
+def function_worker(inst):
+    """funsor.function-wrapped python functions (single and tuple outputs): a SEQUENCE of applications to the same
+    tensor with varying Number arguments, eagerly and through variables bound afterwards; every result equals the
+    python function applied to the raw cells (the tuple-output wrapper memoises its last call)"""
+    from harness.oblig import decide
+    _, multi, how, scalars = inst
+
+    def ob(mk):
+        import typing
+        from collections import OrderedDict
+        import numpy as np
+        import funsor
+        from funsor import Bint, Number, Real, Reals, Tensor, Variable
+        from symx.symarray import as_obj
+        X = mk.array("x", (2, 3), "real")
+        Xc = as_obj(X)
+        inputs = OrderedDict(i=Bint[2])
+        x = Tensor(X, inputs)
+
+        def raw(xd, a):
+            return (xd * a).sum(-1), xd + a
+        if multi:
+            f = funsor.function(Reals[3], Real, typing.Tuple[Real, Reals[3]])(lambda xd, a: raw(xd, a))
+        else:
+            f = funsor.function(Reals[3], Real, Reals[3])(lambda xd, a: raw(xd, a)[1])
+        pairs = []
+        for a in scalars:
+            if how == "eager":
+                r = f(x, Number(a))
+            else:
+                xv, av = Variable("xv", Reals[3]), Variable("av", Real)
+                lz = f(xv, av)
+                r = tuple(t(xv=x, av=a) for t in lz) if multi else lz(xv=x, av=a)
+            outs = r if multi else (None, r)
+            for i in range(2):
+                if multi:
+                    s_ = as_obj(outs[0].data)[i]
+                    pairs.append(([s_], [sum(Xc[i, k] * a for k in range(3))]))
+                t_ = as_obj(outs[1].data)[i]
+                pairs.append(([t_[k] for k in range(3)], [Xc[i, k] + a for k in range(3)]))
+        return pairs
+    out = decide("function|%s" % (inst[1:],), ob, timeout_ms=10000, twin=True)
+    out["prog"] = out["label"]
+    return out
+
+
 def main():
     chk = Check("C01", "model_checking")
     insts = instances(chk.tier, chk.seed)
     chk.map("checks.c01", "worker", insts, chunksize=8)
+    finsts = [("function", multi, how, sc) for multi in (False, True) for how in ("eager", "lazy")
+              for sc in ((1.0, 3.0, 0.5, 3.0), (2.0, 2.0, -1.0), (0.0, 1.0))]
+    chk.map("checks.c01", "function_worker", finsts, chunksize=1, family="function")
     for o in chk.outcomes:
         if o.get("core_decline"):
             chk.notes.append("core-fragment decline: %s :: %s" % (o.get("prog"), o.get("detail")))
